@@ -304,6 +304,29 @@ func runC18(ctx *core.Ctx) {
 			w["end_to_end_output"] = core.Show(p.Sanitize(in))
 			cs.Violate(sig, fmt.Sprintf("default handler of %q (%s) accepts %q, which contains the hostile fragment %q (%s)", prop, hn, v, f.text, posClass), w)
 		}
+		// whatever the property, a value of its value space is a sequence of well-formed component values:
+		// brackets balanced and properly nested, strings closed. Variants of accepted values that are not
+		// (a bracket dropped, added or doubled; junk with stray brackets) must be refused
+		for bi, base := range bases {
+			if bi%shards != shard || len(base) > 60 {
+				continue
+			}
+			var vs []string
+			if i := strings.Index(base, "("); i > 0 && strings.HasSuffix(base, ")") {
+				vs = append(vs, base[:len(base)-1], base[:i]+base[i+1:], base+")", base[:i+1]+base, base[:i+1]+"("+base[i+1:], "1"+base[:i+1]+base[i+1:len(base)-1])
+			}
+			for _, j := range []string{")", "(", "]", "[", "}", "{", "\"", "'", "]]]", "[[", "(()", "[[--5|||]]]", "\"x"} {
+				vs = append(vs, base+" "+j, j+" "+base, base+j)
+			}
+			for _, v := range vs {
+				lc["malformed_variants_tried"]++
+				if !cssWellFormed(v) && call(v) {
+					sig := fmt.Sprintf("C18:%s:malformed-value-accepted", hn)
+					cs.Violate(sig, fmt.Sprintf("default handler of %q (%s) accepts %q, which is not a sequence of well-formed component values (unbalanced bracket or open string), so it belongs to no property's value space; derived from the accepted value %q", prop, hn, v, base),
+						map[string]interface{}{"property": prop, "handler": hn, "base_value": base, "malformed_value": core.Show(v)})
+				}
+			}
+		}
 		if shard == 0 {
 			// the fragment as the whole value, and after each keyword-ish single
 			for _, f := range c18Frags {
@@ -576,4 +599,42 @@ func spread(ss []string, n int, cs *core.Case) []string {
 		}
 	}
 	return res
+}
+
+// cssWellFormed: brackets balanced and properly nested outside strings, strings closed, escapes complete.
+func cssWellFormed(v string) bool {
+	var st []byte
+	for i := 0; i < len(v); i++ {
+		switch c := v[i]; c {
+		case '\\':
+			i++
+			if i >= len(v) {
+				return false
+			}
+		case '"', '\'':
+			j := i + 1
+			for j < len(v) && v[j] != c {
+				if v[j] == '\\' {
+					j++
+				}
+				j++
+			}
+			if j >= len(v) {
+				return false
+			}
+			i = j
+		case '(':
+			st = append(st, ')')
+		case '[':
+			st = append(st, ']')
+		case '{':
+			st = append(st, '}')
+		case ')', ']', '}':
+			if len(st) == 0 || st[len(st)-1] != c {
+				return false
+			}
+			st = st[:len(st)-1]
+		}
+	}
+	return len(st) == 0
 }
